@@ -31,6 +31,9 @@ def plan(tier, seed):
 def gen_case(rng, tier):
     from .. import mixgen
     cfg = mixgen.draw_config(rng)
+    if rng.random() < 0.15:
+        # a lease-honouring client: its requests wait for the server's (small, then unlimited) leases
+        cfg['lease'] = mixgen.draw_leases(rng)
     specs = []
     iid = 1
     for side in 'cs':
@@ -148,11 +151,16 @@ def run_case(gen, idx, rng, tier):
         st['interactions_terminated'] = len(specs)
         st['tables_read'] = 4
         sid_to_iid = {v: k for k, v in sids.items() if v is not None}
+        opened_on_wire = {(e['ep'], e['f'].get('sid')) for e in world.events if e['kind'] == 'wire'
+                          and e['f'].get('type', '').startswith('REQUEST_') and e['f']['type'] != 'REQUEST_N'}
         for side in 'cs':
             streams, partial = tables[side]
             if streams:
                 left = [{'stream': sid, 'iid': sid_to_iid.get(sid), 'model': _model(specs, sid_to_iid.get(sid)),
-                         'ended_by': endings.get(sid_to_iid.get(sid))} for sid in streams]
+                         'ended_by': endings.get(sid_to_iid.get(sid)),
+                         # a stream whose request frame never reached the wire is unknown to the peer
+                         'request_frame_on_the_wire': any((ep, sid) in opened_on_wire for ep in 'cs')}
+                        for sid in streams]
                 wit.append({'clause': 'open-streams-at-quiescence',
                             'detail': {'endpoint': side, 'left': left, 'endings': endings,
                                        'trace': trace_excerpt(world, 80, left[0]['iid'])}})
@@ -321,7 +329,7 @@ def classify(w):
     if w.get('clause') in ('open-streams-at-quiescence', 'stream-id-not-reusable'):
         left = d.get('left') or []
         if left and all(x.get('model') == 'channel' and x.get('ended_by') in ('error', 'requester-cancel')
-                        for x in left):
+                        and x.get('request_frame_on_the_wire', True) for x in left):
             # ERROR / requester CANCEL closes only one direction of a channel; the entry stays until the other
             # direction ends too (same mechanism as the C08 finding)
             return 'channel-direction-survives-termination'
